@@ -48,7 +48,7 @@ def message_cases(res, rng, mt, tier):
                 pay = F.rand_payload_for(rng, lay)
                 kind = name
             other = F.rand_payload_for(rng, lay, 'ones')
-            impl = C.guarded(F.impl_decode, cls, pay, other)
+            impl = C.guarded(F.impl_decode, cls, pay, other, k % 3 == 0)
             desc = {'message': name, 'payload_hex': C.hexs(pay)}
             cases.append(Case('decode-vs-model', f'dec {e["kindspec"]} {C.hexs(pay)}', impl, desc, kind=kind))
             cases.append(Case('decode-vs-ublox-oracle', f'specdec {name} {C.hexs(pay)}', xnorm(impl), desc, kind=kind + '/oracle', nontrivial=False))
